@@ -27,6 +27,7 @@ type Exec struct {
 	Res     *vsched.Result
 	Log     []vsched.Event // canonical names
 	Bad     []string       // violated observable clauses
+	Pending []string       // pending witness class (see CheckDelivery)
 	Outcome Outcome
 }
 
@@ -60,7 +61,8 @@ func RunOne(F *VFuncs, c Config, strat vsched.Strategy, por bool) (*Exec, error)
 		if c.Sys == "do" {
 			ex.Bad = append(ex.Bad, CheckDo(c, &ex.Outcome, ex.Log)...)
 		} else {
-			ex.Bad = append(ex.Bad, CheckDelivery(c, &ex.Outcome)...)
+			bad, pend := CheckDelivery(c, &ex.Outcome)
+			ex.Bad, ex.Pending = append(ex.Bad, bad...), pend
 			ex.Bad = append(ex.Bad, CheckLogC19(c, ex.Log)...)
 		}
 	}
@@ -96,6 +98,9 @@ type summary struct {
 	Seed       int64                `json:"seed"`
 	Systems    map[string]*sysStats `json:"systems"`
 	Violations []Violation          `json:"violations"`
+	Pending    []Violation          `json:"pending"`               // pending witness class dupchan-order
+	PendingN   int                  `json:"pending_count"`         // executions in that class
+	Unmodelled int                  `json:"unmodelled_executions"` // duplicated-channel runs: observable clauses only, no LTS replay
 	Samples    []map[string]any     `json:"samples"`
 	Executions int                  `json:"executions"`
 	TimedOut   bool                 `json:"stopped_at_time_limit"`
@@ -147,6 +152,19 @@ func (r *runner) record(ex *Exec, por bool) {
 	picks := make([]int, len(ex.Res.Choices))
 	for i, c := range ex.Res.Choices {
 		picks[i] = c.Pick
+	}
+	if len(ex.Pending) > 0 {
+		r.sum.PendingN++
+		if len(r.sum.Pending) < 3 {
+			r.sum.Pending = append(r.sum.Pending, Violation{Replay{ex.Config, picks, por}, ex.Pending, traceStrings(ex.Log)})
+		}
+	}
+	if ex.Config.Slice != nil { // outside the LTS: not replayed
+		r.sum.Unmodelled++
+		if len(ex.Bad) > 0 && len(r.sum.Violations) < 20 {
+			r.sum.Violations = append(r.sum.Violations, Violation{Replay{ex.Config, picks, por}, ex.Bad, traceStrings(ex.Log)})
+		}
+		return
 	}
 	r.id++
 	r.sum.Executions++
@@ -403,6 +421,16 @@ func (r *runner) plan(sys string, thorough bool, rng *rand.Rand) error {
 			}
 		}
 	}
+	if sys == "joinsc" { // the same channel at several positions of the slice
+		if err := each(DupSliceConfigs(2, 1), por, true); err != nil {
+			return err
+		}
+		for _, c := range DupSliceConfigs(3, 2) {
+			if err := r.random(c, 4, rng); err != nil {
+				return err
+			}
+		}
+	}
 	// (c) random deeper configurations, random schedules
 	nc, ns, maxIn, maxItems := 100, 6, 3, 3
 	if thorough {
@@ -448,6 +476,9 @@ func replayMain(F *VFuncs, path string) int {
 		fmt.Print(" " + e.String())
 	}
 	fmt.Println()
+	for _, b := range ex.Pending {
+		fmt.Println("PENDING (witness class dupchan-order): " + b)
+	}
 	if len(ex.Bad) > 0 {
 		for _, b := range ex.Bad {
 			fmt.Println("VIOLATED: " + b)
